@@ -968,12 +968,11 @@ func (s *StateMachine) GetDexBatch(chainId uint64, locked bool, withPoints ...bo
 	b = &lib.DexBatch{Committee: chainId, PoolSize: lPool.Amount}
 	defer b.EnsureNonNil()
 	// check for nil bytes
-	if len(bz) == 0 {
-		return
+	if len(bz) != 0 {
+		// populate the batch object with the bytes
+		err = lib.Unmarshal(bz, b)
 	}
-	// populate the batch object with the bytes
-	err = lib.Unmarshal(bz, b)
-	// check if points should be attached
+	// check if points should be attached (also when no batch is stored yet: the liveness fallback mirrors these points)
 	if len(withPoints) == 1 && withPoints[0] {
 		// set the pool points
 		b.PoolPoints = lPool.Points
